@@ -15,6 +15,8 @@ IMG_CONFIGS = [
     ("ext4_metabg48", ["-t", "ext4", "-b", "1024", "-g", "256", "-O", "meta_bg,^resize_inode", "-I", "256", "-N", "768"], "12M"),
     # 128-byte group descriptors: the checksum covers more than struct ext4_group_desc
     ("ext4_desc128", ["-t", "ext4", "-b", "1024", "-g", "2048", "-O", "64bit,metadata_csum", "-E", "desc_size=128", "-I", "256", "-N", "512"], "8M"),
+    # 46 inode-table blocks per group (not a multiple of the scan's 8-block read batch), inodes in use in several groups
+    ("ext4_itb46", ["-t", "ext4", "-b", "1024", "-I", "256", "-N", "736"], "32M"),
     # more than 500 attribute blocks, each shared by two inodes, met by the inode scan in descending block order
     ("ext4_sharedea", ["-t", "ext4", "-b", "1024", "-I", "128", "-N", "2560", "-O", "^metadata_csum,^64bit,uninit_bg"], "16M"),
 ]
@@ -54,6 +56,8 @@ def _build_image(src, work, name, opts, size, seed, nfiles, img):
     with open(small, "wb") as f:
         f.write(b"hello world\n" * 50)
     cmds = ["mkdir d1", "mkdir d1/sub", "mkdir big", "mkdir empty"]
+    if name == "ext4_itb46":
+        nfiles = 420
     for i in range(nfiles):
         cmds.append("write %s big/f_%03d_%s" % (small if i % 7 == 0 else "/dev/null", i, "n" * r.randint(0, 30)))
     cmds += ["write %s d1/frag" % data]
@@ -385,6 +389,18 @@ def op_csum_only(fs, d, r, keep_csum):
     if k == "bitmap":
         return op_bitmap_block(fs, d, r, False) + ", checksum untouched"
     return op_dirent(fs, d, r, False) + ", checksum untouched"
+
+
+def op_inode_csum_late(fs, d, r, keep_csum, which=None):
+    """one covered byte of an in-use inode outside the first block group changes, the checksum stays"""
+    if not fs.has_csum:
+        return "not applicable"
+    cands = [i for i in regular_files(fs) + directories(fs) if (i - 1) // fs.inodes_per_group >= 1]
+    if not cands:
+        return "not applicable"
+    ino = r.choice(cands)
+    d[fs.inode_loc(ino) + r.choice([8, 9, 12, 16])] ^= 0x21
+    return "inode %d (group %d): one covered byte changed, checksum untouched" % (ino, (ino - 1) // fs.inodes_per_group)
 
 
 def op_noise(fs, d, r, keep_csum):
